@@ -105,6 +105,48 @@ T = {
            "fd 1 closed (`exec >&-`) before a pipeline of >= 3 stages",
            "C14 driver data",
            "added transfers with standard descriptors closed beforehand (`pre` bit mask)"),
+ "C15-1": ("a task is queued at most once; no poll after completion",
+           "a task already in the queue woken again by a task polled earlier in the same run_until_stalled batch, or a task driving the executor from inside its own poll",
+           "C15 drivers exhaustive / random (wake_count and poll-log invariants)", ""),
+ "C15-2": ("no woken task starved by self-re-waking tasks",
+           "a woken, not yet polled task plus >= 2 tasks that each wake it again and re-wake themselves",
+           "C15 drivers exhaustive / random (FIFO reference scheduler)", ""),
+ "C16-1": ("environment of executed programs = exported variables",
+           "exported global hidden by a non-exported local of the same name, external utility started inside the function",
+           "C16 drivers api-* / script-random (Process::last_exec environment)", ""),
+ "C16-2": ("locals vanish at return; lookup returns the innermost scope",
+           "bare `typeset x` (no value, no attribute) in a function when x is already visible from an outer scope, then assignment",
+           "C16 driver script-random", ""),
+ "C17-1": ("a name is not substituted again within its own replacement; termination",
+           "the alias is re-defined (new definition object) between the substitution and the re-occurrence of its name inside the replacement text",
+           "C17 drivers alias / global (second parse with a glossary handing out newly allocated definitions) and runtime",
+           "added the fresh-definition glossary pass and the runtime driver (two-line alias value whose first line re-defines the alias)"),
+ "C17-2": ("commands executed equal the by-hand substitution",
+           "alias name in command position preceded by an assignment word or redirection",
+           "C17 drivers alias / global", ""),
+ "C18-1": ("input is read no further than the current line",
+           "a UTF-8 lead byte (valid or stray) within the last 1-3 bytes before the newline, followed by a command that consumes the same input (`read`, `pos`)",
+           "C18 driver input",
+           "added comments holding arbitrary bytes attached to mark / pos / read lines (scripts were ASCII only)"),
+ "C18-2": ("what follows on standard input remains available to commands reading it",
+           "standard input is a pipe inherited with O_NONBLOCK; a command reads it before the data has arrived",
+           "C18 driver input",
+           "added pipe mode with the read end handed over non-blocking; `pos` records the blocking mode of fd 0 at command time"),
+ "C19-1": ("the simulator invents no behaviour",
+           "command trap on a signal, the signal delivered to the shell between two forks of one simple command (`x=$(kill -s USR1 $$)$(...)`)",
+           "C19 driver real-vs-virtual",
+           "added statements with a trapped signal arriving between two command substitutions of one command"),
+ "C19-2": ("the real system hides no behaviour (same output)",
+           "a built-in's own write to a pipe blocks: more than 64 KiB into a pipe (real OS only)",
+           "C19 driver real-vs-virtual (stall detector)",
+           "added transfers of 66-150 kB and a real-OS deadlock detector (every process of the script asleep, no CPU use for 10 s)"),
+ "C20-1": ("`--name=value` equals `--name value`",
+           "long option with attached argument that itself contains `=` (`read --delimiter== v`)",
+           "C20 driver builtin-catalogue", ""),
+ "C20-2": ("`--` ends option parsing",
+           "kill: operand after `--` that starts with a hyphen (negative process ID)",
+           "C20 driver builtin-catalogue",
+           "added `kill -s 0 -- -1` and its spellings with the documented result"),
 }
 
 def main():
@@ -126,7 +168,8 @@ def main():
             conf = "yes" if m.get("confirmed") else "NO"
         else:
             conf = "not filed"
-        rows.append(f"| {seed} | {breaks} | {needs} | {caught} | {strengthened or '-'} | {conf} |")
+        esc = lambda x: x.replace("|", "\\|")
+        rows.append(f"| {seed} | {esc(breaks)} | {esc(needs)} | {esc(caught)} | {esc(strengthened) or '-'} | {conf} |")
     print("| seed | part of the property broken | needs, in order to manifest | caught by | check strengthened first? | confirmed |")
     print("|---|---|---|---|---|---|")
     print("\n".join(rows))
